@@ -67,7 +67,7 @@ def concrete_eval(spec: Spec, kwargs: Dict[str, Any], extra_pre: Sequence[str] =
     g = dict(spec.fn.__globals__)
     for p in tuple(spec.pre) + tuple(extra_pre):
         try:
-            if not eval(p, g, dict(kwargs)):
+            if not eval(p, {**g, **kwargs}):
                 return "pre_failed", p
         except Exception as e:  # noqa
             return "pre_failed", f"{p} raised {e!r}"
@@ -81,7 +81,7 @@ def concrete_eval(spec: Spec, kwargs: Dict[str, Any], extra_pre: Sequence[str] =
         import traceback
         return "raised", "".join(traceback.format_exception(type(e), e, e.__traceback__)[-6:])
     try:
-        ok = eval(spec.post, g, {**call_kwargs, "_": ret})
+        ok = eval(spec.post, {**g, **call_kwargs, "_": ret})
     except Exception as e:  # noqa
         return "raised", f"postcondition raised {e!r}"
     if ok:
